@@ -68,7 +68,8 @@ def D_spec(d, pre, be, preT, beT, strain=None, sitedip=None, jumpdip=None):
         v = np.array([np.sqrt(rho[i]) if find(i) == root else 0. for i in range(N)]); v /= np.linalg.norm(v)
         P += np.outer(v, v)
     Ws = 0.5 * (W + W.T)
-    return D0 + b.T @ (np.linalg.solve(Ws - P, b) + P @ b)
+    s_ = abs(np.trace(Ws)) / N if N and abs(np.trace(Ws)) > 0 else 1.0     # shift the null space by the scale of the rates: W^+ = (W - s P)^-1 + P / s
+    return D0 + b.T @ (np.linalg.solve(Ws - s_ * P, b) + (P @ b) / s_)
 
 
 def project_invariant(T, H):
@@ -103,6 +104,12 @@ def w_interstitial(arg):
         D = d.diffusivity(pre, be, preT, beT)
         sc = np.abs(D).max()
         if which == 'C02':
+            # the same network with every rate 1e-6 / 1e-9 times slower (transition states higher by 13.8 / 20.7 kT): still exact
+            rng2 = np.random.default_rng(seed * 1013 + idx * 37 + t)
+            for rep_, big in [(0, 1e-6), (0, 1e-9)] + ([] if d.omega_invertible or d.NV == 0 else [(r_, b_) for r_ in range(1, 12) for b_ in (1e-7, 1e-5, 1e-3, 1e3)]):
+                p2, b2, pT2, bT2 = thermo(d, rng2) if rep_ else (pre, be, preT, beT)
+                Db_ = d.diffusivity(p2, b2, pT2, bT2 - np.log(big)); Dsb = D_spec(d, p2, b2, pT2, bT2 - np.log(big))
+                acc.check(np.abs(Db_ - Dsb).max() <= 1e-9 * np.abs(Dsb).max(), 'diffusivity-equals-exact-long-time-diffusivity(slow rates)', '%s: all rates x %g: |D-Dspec|/|D| = %.2e (NV=%d, solver %s)' % (tag, big, np.abs(Db_ - Dsb).max() / np.abs(Dsb).max(), d.NV, 'solve' if d.omega_invertible else 'pinv'), sig=(t, 'slow', big))
             Ds = D_spec(d, pre, be, preT, beT)
             acc.check(np.abs(D - Ds).max() <= 1e-9 * sc, 'diffusivity-equals-exact-long-time-diffusivity', '%s: |D-Dspec|/|D| = %.2e (NV=%d, solver %s)' % (tag, np.abs(D - Ds).max() / sc, d.NV, 'solve' if d.omega_invertible else 'pinv'), sig=(t, 'spec'))
             if gf is not None:
@@ -143,6 +150,16 @@ def w_interstitial(arg):
             acc.check(np.abs(d.diffusivity(pre, be + cshift, preT, beT + cshift) - D).max() <= 1e-9 * sc, 'invariant-under-common-energy-shift', tag, sig=(t, 'shift'))
             acc.check(np.abs(d.diffusivity(s_ * pre, be, s_ * preT, beT) - D).max() <= 1e-9 * sc, 'invariant-under-joint-prefactor-scaling', tag, sig=(t, 'pre'))
             acc.check(np.abs(d.diffusivity(pre, be, lam * preT, beT) - lam * D).max() <= 1e-9 * lam * sc, 'scales-with-rate-factor', tag, sig=(t, 'lam'))
+            # factors far from one, through the prefactors and through the transition-state energies (the same rates, reached two ways)
+            # (on the pseudo-inverse branch the outcome hinges on roundoff in the null mode: many data sets and factors there)
+            rng2 = np.random.default_rng(seed * 1009 + idx * 31 + t)
+            for rep_ in range(1 if d.omega_invertible or d.NV == 0 else 16):
+                p2, b2, pT2, bT2 = (pre, be, preT, beT) if rep_ == 0 else thermo(d, rng2)
+                Dr = D if rep_ == 0 else d.diffusivity(p2, b2, pT2, bT2); scr = np.abs(Dr).max()
+                for big in (1e-9, 1e-6, 1e6) if rep_ == 0 else (1e-9, 1e-7, 1e-5, 1e-3, 1e3):
+                    r1 = np.abs(d.diffusivity(p2, b2, big * pT2, bT2) / big - Dr).max() / scr
+                    r2 = np.abs(d.diffusivity(p2, b2, pT2, bT2 - np.log(big)) / big - Dr).max() / scr
+                    acc.check(r1 <= 1e-9 and r2 <= 1e-9, 'scales-with-an-extreme-rate-factor', '%s/%d: factor %g: relative deviation %.2e via prefactors, %.2e via transition energies (NV=%d, solver %s)' % (tag, rep_, big, r1, r2, d.NV, 'solve' if d.omega_invertible else 'pinv'), sig=(t, 'big', big))
         if which == 'C11':
             D, Db = d.diffusivity(pre, be, preT, beT, CalcDeriv=True)
             h = 1e-4
